@@ -5,65 +5,87 @@ From XV Require Import lib.Bytes lib.Lts gen.SessClose C10.Model C10.Inv.
 (* case analysis of one step: one goal per operation and branch *)
 Lemma step_inv : forall s i s', step s i = Some s' ->
   exists o k og ig a', a_code (s_a s i) = o :: k /\
+    gate i o (s_o s) = true /\
     exec i o k (s_o s) (s_i s) (s_a s i) = Some (og, ig, a') /\
     s' = mkS og ig (upd (s_a s) i a').
 Proof.
   intros s i s' H. unfold step in H.
   destruct (a_code (s_a s i)) as [|o k]; [discriminate|].
+  destruct (gate i o (s_o s)) eqn:G; [|discriminate].
   destruct (exec i o k (s_o s) (s_i s) (s_a s i)) as [[[og ig] a']|] eqn:E; [|discriminate].
   injection H as <-. exists o, k, og, ig, a'. auto.
 Qed.
 
 Ltac destr_step H :=
   let o := fresh "o" in let k := fresh "k" in let og := fresh "og" in let ig := fresh "ig" in
-  let a' := fresh "a'" in let Hcode := fresh "Hcode" in let Hex := fresh "Hex" in
-  apply step_inv in H; destruct H as (o & k & og & ig & a' & Hcode & Hex & ->);
+  let a' := fresh "a'" in let Hcode := fresh "Hcode" in let Hex := fresh "Hex" in let Hgate := fresh "Hgate" in
+  apply step_inv in H; destruct H as (o & k & og & ig & a' & Hcode & Hgate & Hex & ->);
   destruct o; cbn [exec] in Hex;
   repeat match type of Hex with
          | context [match ?x with _ => _ end] => destruct x eqn:?; try discriminate
          end;
   injection Hex as <- <- <-.
 
-(* ---- the closed bits only ever get set ---- *)
+(* ---- the closed bits only ever get set; a closing that is complete (bit set,
+        tag written) stays complete ---- *)
 
 Lemma step_mono : forall s i s', step s i = Some s' ->
-  (o_cl (s_o s) = true -> o_cl (s_o s') = true) /\ (i_cl (s_i s) = true -> i_cl (s_i s') = true).
+  (o_cl (s_o s) = true -> o_cl (s_o s') = true) /\ (i_cl (s_i s) = true -> i_cl (s_i s') = true) /\
+  (o_cl (s_o s) = true /\ o_pend (s_o s) = false -> o_cl (s_o s') = true /\ o_pend (s_o s') = false).
 Proof.
-  intros s i s' H. destr_step H; cbn; split; auto; intros; try apply o_close_cl; try congruence.
+  intros s i s' H. destr_step H; cbn; (split; [|split]); auto; try (intros; apply o_mark_cl); try congruence.
+  - (* OMark *) intros [A B]. unfold o_mark. rewrite A. auto.
+  - (* OWriteTag *) unfold o_writetag. destruct (o_pend (s_o s)); cbn; auto.
+  - (* OWriteTag *) intros [A B]. unfold o_writetag. rewrite B. auto.
 Qed.
 
 Lemma run_mono : forall tr s s', run step s tr = Some s' ->
-  (o_cl (s_o s) = true -> o_cl (s_o s') = true) /\ (i_cl (s_i s) = true -> i_cl (s_i s') = true).
+  (o_cl (s_o s) = true -> o_cl (s_o s') = true) /\ (i_cl (s_i s) = true -> i_cl (s_i s') = true) /\
+  (o_cl (s_o s) = true /\ o_pend (s_o s) = false -> o_cl (s_o s') = true /\ o_pend (s_o s') = false).
 Proof.
   induction tr as [|l tr IH]; intros s s' H; cbn [run] in H.
   - injection H as <-. auto.
   - destruct (step s l) as [s1|] eqn:E; [|discriminate].
-    destruct (step_mono s l s1 E) as [A B]. destruct (IH s1 s' H) as [C D]. split; auto.
+    destruct (step_mono s l s1 E) as (A & B & C). destruct (IH s1 s' H) as (D & F & G).
+    split; [auto|]. split; auto.
 Qed.
 
-(* ---- once the stream is closed neither the connection nor the encoder buffer
-        is written again ---- *)
+(* ---- once the stream is closed the encoder buffer is never written again,
+        and the only thing that still reaches the connection is the closing tag
+        owed by the call that set the bit ---- *)
+
+Definition tag_only (o o' : outg) : Prop :=
+  (o_wire o' = o_wire o /\ o_pend o' = o_pend o) \/
+  (o_pend o = true /\ o_wire o' = o_wire o ++ [IClose] /\ o_pend o' = false).
 
 Lemma step_frozen : forall s i s', INV s -> o_cl (s_o s) = true -> step s i = Some s' ->
-  o_wire (s_o s') = o_wire (s_o s) /\ o_buf (s_o s') = o_buf (s_o s) /\ o_cl (s_o s') = true.
+  o_buf (s_o s') = o_buf (s_o s) /\ o_cl (s_o s') = true /\ tag_only (s_o s) (s_o s').
 Proof.
   intros s i s' HI Hcl H. pose proof HI as [_ Ha]. destruct (Ha i) as [Hsafe Hchk].
-  destr_step H; cbn; try rewrite Hcl; auto; try congruence.
+  destr_step H; unfold tag_only; cbn; try rewrite Hcl; auto; try congruence.
   - (* OEmit *) rewrite Hcode in Hsafe. apply safe_emit in Hsafe. destruct Hsafe as (_ & Hc & _).
     destruct (Hchk Hc). congruence.
   - (* OFlush *) rewrite Hcode in Hsafe. apply safe_flush in Hsafe. destruct Hsafe as (_ & Hc & _).
     destruct (Hchk Hc). congruence.
-  - (* OCloseSession *) unfold o_close. rewrite Hcl. auto.
+  - (* OMark *) unfold o_mark. rewrite Hcl. auto.
+  - (* OWriteTag *) unfold o_writetag. destruct (o_pend (s_o s)) eqn:Hp; cbn; auto.
+    split; [reflexivity|]. split; [exact Hcl|]. right. auto.
 Qed.
 
 Lemma run_frozen : forall tr s s', INV s -> o_cl (s_o s) = true -> run step s tr = Some s' ->
-  o_wire (s_o s') = o_wire (s_o s) /\ o_buf (s_o s') = o_buf (s_o s).
+  o_buf (s_o s') = o_buf (s_o s) /\ tag_only (s_o s) (s_o s').
 Proof.
   induction tr as [|l tr IH]; intros s s' HI Hcl H; cbn [run] in H.
-  - injection H as <-. auto.
+  - injection H as <-. split; [reflexivity|left; auto].
   - destruct (step s l) as [s1|] eqn:E; [|discriminate].
     destruct (step_frozen s l s1 HI Hcl E) as (A & B & C).
-    destruct (IH s1 s' (INV_step s l s1 HI E) C H) as [D F]. split; congruence.
+    destruct (IH s1 s' (INV_step s l s1 HI E) B H) as [D F]. split; [congruence|].
+    unfold tag_only in *.
+    destruct C as [[C1 C2]|(C1 & C2 & C3)]; destruct F as [[F1 F2]|(F1 & F2 & F3)].
+    + left. split; congruence.
+    + right. repeat split; congruence.
+    + right. repeat split; congruence.
+    + congruence.
 Qed.
 
 Lemma run_INV : forall tr s s', INV s -> run step s tr = Some s' -> INV s'.
@@ -100,13 +122,18 @@ Proof.
 Qed.
 
 Lemma wire_ok_count o : wire_ok o ->
-  closes (o_wire o) <= 1 /\ (o_cl o = true <-> closes (o_wire o) = 1) /\
+  closes (o_wire o) <= 1 /\
+  (closes (o_wire o) = 1 <-> o_cl o = true /\ o_pend o = false) /\
   (forall pre post, o_wire o = pre ++ IClose :: post -> post = []).
 Proof.
   intros (H1 & H2 & _). destruct (o_cl o) eqn:Hcl.
-  - destruct (H2 eq_refl) as (pre & Hw & Hn). rewrite Hw, closes_app, (closes_none pre Hn). cbn.
-    split; [lia|]. split; [tauto|].
-    intros p q E. exact (last_unique IClose pre p q E Hn).
-  - rewrite (closes_none _ (H1 eq_refl)). split; [lia|]. split; [split; intro; discriminate|].
-    intros p q E. exfalso. apply (H1 eq_refl). rewrite E. apply in_or_app. right. left. reflexivity.
+  - specialize (H2 eq_refl). destruct (o_pend o) eqn:Hp.
+    + rewrite (closes_none _ H2). split; [lia|]. split; [split; [discriminate|intros [_ E]; discriminate]|].
+      intros p q E. exfalso. apply H2. rewrite E. apply in_or_app. right. left. reflexivity.
+    + destruct H2 as (pre & Hw & Hn). rewrite Hw, closes_app, (closes_none pre Hn). cbn.
+      split; [lia|]. split; [tauto|].
+      intros p q E. exact (last_unique IClose pre p q E Hn).
+  - destruct (H1 eq_refl) as [Hw Hp]. rewrite (closes_none _ Hw). split; [lia|].
+    split; [split; [discriminate|intros [E _]; discriminate]|].
+    intros p q E. exfalso. apply Hw. rewrite E. apply in_or_app. right. left. reflexivity.
 Qed.
